@@ -15,6 +15,10 @@ CLAIMED = {
    text='The real ratio / increment node-height transforms and time-tree models are executed on symbolic sampling times, ratios, root height and increments (shapes [] and [2]) for every enumerated rooted topology; orderings of the sampling times are path regions enumerated until the solver certifies coverage. Tip placement, parent>=child on every edge, branch length = parent-child, agreement with an independent recursion of the documented parameterisation, inv(forward(x))=x, forward(inv(y))=y and "device/dtype move keeps the parameterisation" are proved for all real parameter values per region.',
    note='Reals not floats; n<=4 quick (n<=5 thorough, sampled topologies at 5); sampling times injected after construction (date parsing runs concretely); cuda() exercised through cpu()/to(dtype); smooth-max (k>0) variant outside the claim.',
    technique=TECH_A + ' with solver-certified path-region coverage'),
+ 'C07': dict(level=MC, ref='DESIGN.md §4 C07',
+   text='The forward map of every shipped bijective transform (ratio / increment node-height transforms on every enumerated topology with symbolic sampling times, CumSum, CumSumExp, SoftPlus, CumSumSoftPlus, Log, LogDifferenceRate, TrilExpDiagonal, and torch Exp/Sigmoid/Affine/StickBreaking) is traced on symbolic inputs and differentiated symbolically by the engine, independently of the hand-written log_abs_det_jacobian. The solver decides exp(reported) == |det J| (factor by factor with a sound assembly step, or monolithically), inv(f(x)) == x, and that TransformedParameter() / ReparameterizedTimeTreeModel() return that value for the current parameter before and after an update, for all points of the domain. Bounded in dimension / topology size.',
+   note='Reals not floats; exp/log uninterpreted with ground axiom instances (softplus = log(1+exp)); dimension <= 3 for vector transforms, n <= 3 quick / 4 thorough for tree transforms; torch Sigmoid/StickBreaking: Jacobian clause only, numerical clamps treated as identity; TrilExpDiagonal inverse only (its Jacobian raises NotImplementedError); non-bijective ConvexCombination/Linear/RescaledRate outside the claim.',
+   technique=TECH_A + '; Jacobian by symbolic differentiation of the traced forward map, exp-lifted determinant identity'),
  'C08': dict(level=MC, ref='DESIGN.md §4 C08',
    text='Bounded symbolic execution of the real coalescent log_prob code (SymTensor engine): every interleaving of sampling, coalescent and grid events is a path region; regions are enumerated with blocking clauses until the SMT solver certifies that they cover the whole input domain, and on every region "implementation == independent Kingman event-list oracle" is proved for all real heights / population sizes / growth rates / grid points. Bounded (n<=3 quick, n<=4 thorough), so model checking of the path-region space rather than a proof.',
    note='Reals not floats; log/exp uninterpreted with ground axiom instances; torch.distributions validation off (domain constraints instead); n and grid size bounded as stated in the evidence; soft (temperature) skygrid outside the claim.',
